@@ -158,13 +158,9 @@ theorem rejectTx_frame (K : Keys) (W : Tx → Prop) (s : State) (t : Tx) (why : 
   · cases h; exact ht
   · cases h
 
-theorem addToSort_frame (K : Keys) (W : Tx → Prop) (s : State) (b : Nat) (t : T2S) : Frame W s (addToSort K s b t) := by
-  unfold addToSort
-  split
-  · exact Frame.refl W s
-  · split
-    · exact Frame.of_eq rfl rfl rfl rfl rfl rfl
-    · split <;> exact Frame.of_eq rfl rfl rfl rfl rfl rfl
+theorem addToSort_frame (K : Keys) (W : Tx → Prop) (s : State) (b : Nat) (t : T2S) : Frame W s (addToSort K s b t) :=
+  have h := addToSort_sortOnly K s b t
+  Frame.of_eq h.pool h.spent h.utxo h.wt h.undo h.rej
 
 theorem delFromSort_frame (W : Tx → Prop) (s : State) (b : Nat) : Frame W s (delFromSort s b) := by
   unfold delFromSort
